@@ -267,6 +267,13 @@ func VerifC06_SegmentLZ4_n131071_incompressible() { verifSegmentIncompressible(M
 func VerifC06_SegmentLZ4_n130600_incompressible() { verifSegmentIncompressible(130600) }
 func VerifC06_SegmentLZ4_n40_incompressible()     { verifSegmentIncompressible(40) }
 
+// C08 (segment-payload format): a segment encoded with LZ4 decodes to the same content, whatever the ratio
+func VerifC08_SegmentLZ4_n5()                   { verifSegmentCompressed(5, 0) }
+func VerifC08_SegmentLZ4_n300_maxratio()        { verifSegmentCompressed(300, 1) }
+func VerifC08_SegmentLZ4_n8192_maxratio()       { verifSegmentCompressed(8192, 1) }
+func VerifC08_SegmentLZ4_n131071_incompressible() { verifSegmentIncompressible(MaxPayloadLength) }
+func VerifC08_SegmentLZ4_n130600_incompressible() { verifSegmentIncompressible(130600) }
+
 // ---- (3) refusal above the maximum ----
 
 func VerifC06_RefuseTooLarge() {
